@@ -73,14 +73,30 @@ def seeds(name, limit=None):
             cand = sorted(set(_cache['_corpus'].get(name) or ()) | set(extract(name, m)))
         acc = []
         rejected = 0
-        for s in cand:
+        corpus_set = set((_cache.get('_corpus') or {}).get(name) or ())
+
+        def _try(mod, s):
             try:
-                v = m.validate(s)
-                if not isinstance(v, str):
-                    raise ValueError
-                acc.append((s, v))
+                v = mod.validate(s)
+                return v if isinstance(v, str) else None
             except Exception:
+                return None
+        for s in cand:
+            v = _try(m, s)
+            if v is None and s in corpus_set:
+                # a documented number of the pinned tree that is rejected now: once more on a freshly loaded module (a
+                # module whose state was used up by the calls before it must not leave the explorers without seeds)
+                import sys
+                import importlib
+                sys.modules.pop(name, None)
+                try:
+                    v = _try(importlib.import_module(name), s)
+                except Exception:
+                    v = None
+            if v is None:
                 rejected += 1
+            else:
+                acc.append((s, v))
         # diversity order: one per canonical shape first, preferring decorated spellings
         acc.sort(key=lambda sv: (sv[1], -len(sv[0]), sv[0]))
         seen_shape, seen_v, first, second, rest = set(), set(), [], [], []
